@@ -423,7 +423,7 @@ Definition block_body (rec : matcher) (b : bspec) (content : list tree) (start_i
                          match unit_name (tinfo st) with
                          | Some ns => if N.eqb ns ne then ret (Some content')
                                       else if t_exits T then raise EExit else ret (Some content')
-                         | None => raise EOther
+                         | None => if t_exits T then raise EExit else ret (Some content')
                          end
                      | None => ret (Some content')
                      end
